@@ -11,11 +11,11 @@ import (
 
 func init() {
 	register(&Rule{ID: "R-pairing-locks", Floor: 10, Run: ruleVMPairLocks,
-		Doc: "package runtime: every sync.Mutex/RWMutex acquisition is released on every path to every return (deferred calls replayed at each exit; panicking exits exempt), the lock state is the same at every loop-iteration boundary, no unlock is deferred inside a loop (defers run at function exit, so the lock accumulates), a lock is not re-acquired for writing while held, and every write to a field that lives in the same struct as an RWMutex happens under Lock, never under RLock only. Necessary for C02/C10/C16/C17: a return that keeps Cores.Lock read-locked blocks the next spawnCore forever; a map write under RLock races with every other reader/writer"})
+		Doc: "package runtime: every sync.Mutex/RWMutex acquisition is released on every path to every return (deferred calls replayed at each exit; panicking exits exempt), the lock state is the same at every loop-iteration boundary, no unlock is deferred inside a loop (defers run at function exit, so the lock accumulates), a lock is not re-acquired for writing while held (lock/unlock helper methods are spliced into their callers), and every write to a field that lives in the same struct as an RWMutex happens under Lock, never under RLock only. Necessary for C02/C10/C16/C17: a return that keeps Cores.Lock read-locked blocks the next spawnCore forever; a map write under RLock races with every other reader/writer"})
 	register(&Rule{ID: "R-pairing-scopes", Floor: 5, Run: ruleVMPairScopes,
-		Doc: "package compiler: calls of the methods that push onto / pop from the compiler's scope stack and loop stack are balanced on every path of every function (deferred pops included; panicking exits exempt) and across every loop iteration. Necessary for C01/C11: an unbalanced scope stack resolves later identifiers in the wrong scope; an unbalanced loop stack makes break/continue target the wrong loop"})
+		Doc: "package compiler: calls of the methods that push onto / pop from the compiler's scope stack and loop stack are balanced on every path of every function (deferred pops included; panicking exits exempt; small helpers every exit of which pushes or pops are spliced into their callers) and across every loop iteration. Necessary for C01/C11: an unbalanced scope stack resolves later identifiers in the wrong scope; an unbalanced loop stack makes break/continue target the wrong loop"})
 	register(&Rule{ID: "R-pairing-interp", Floor: 5, Run: ruleVMPairInterp,
-		Doc: "package interpreter: the call-depth counter (the Interpreter field that is ++/-- and compared with the configured limit) and the scope stack (methods appending to / shrinking Module.scopes) are balanced on every path of every function, including early and error returns (deferred function literals replayed). Necessary for C04/C09/C11: a leaked frame per failing call eventually reports a spurious stack overflow; a leaked scope shadows the locals of the code that continues after return/throw"})
+		Doc: "package interpreter: the call-depth counter (the Interpreter field that is ++/-- and compared with the configured limit) and the scope stack (methods appending to / shrinking Module.scopes) are balanced on every path of every function, including early and error returns (deferred function literals, deferred closures bound to a local and deferred enter/leave helpers replayed). Necessary for C04/C09/C11: a leaked frame per failing call eventually reports a spurious stack overflow; a leaked scope shadows the locals of the code that continues after return/throw"})
 	register(&Rule{ID: "R-pairing-emit", Floor: 24, Run: ruleVMPairEmit,
 		Doc: "bytecode pairing in the compiler, on every path of the lowering concerned: try: SetTryLabel is matched by exactly one PopTryLabel on the normal continuation (after the try block, followed by a jump over the handler) and, because the VM's exception branch only peeks at the handler stack, by exactly one PopTryLabel on the handler continuation emitted before any catch code is compiled; function frames: AddMempointer(+n) is matched by AddMempointer(-n) with the same n, the epilogue is cleanup-label, AddMempointer(-n), Return; Opcode_Return is emitted only as such an epilogue (or outside any frame); `return` lowers to a jump to the function's cleanup label, `break`/`continue` to jumps to the innermost loop record's break/continue label; every loop record's labels and every label referenced by a jump are emitted exactly once on every path. Necessary for C09/C11: a return that bypasses the cleanup leaks the frame; a handler that stays installed while its own catch block runs catches the catch block's throws"})
 }
@@ -32,22 +32,41 @@ type vmBalanceOpts struct {
 	// initialiser: the function creates the structure the counter lives in; an
 	// unmatched +1 is the root element (reported as info).
 	initialiser func(fn *vmFn) (bool, string)
+	// wrappers: functions whose every exit changes a counter by the same non-zero amount (a
+	// push/pop/enter/leave helper). They are not units of their own: their bodies are spliced
+	// into their callers, where the balance is decided.
+	wrappers *vmWrapperFinder
 }
 
-// vmBalanceFn decides, for one function, that every counter returns to its
-// entry value on every non-panicking exit and at every loop iteration
-// boundary. One obligation per (unit, counter) that the unit touches.
-func vmBalanceFn(c *Ctx, fn *vmFn, o vmBalanceOpts) []Obligation {
-	// cheap pre-filter: does the function contain any counted event?
+func (o vmBalanceOpts) inline() func(callee *vmFn, call *ast.CallExpr) bool {
+	if o.wrappers == nil {
+		return nil
+	}
+	return func(callee *vmFn, call *ast.CallExpr) bool {
+		obj, _ := callee.info.Defs[callee.fd.Name].(*types.Func)
+		return o.wrappers.isWrapper(obj)
+	}
+}
+
+// vmTouches: does the function contain a counted event (directly or by calling a wrapper)?
+func vmTouches(fn *vmFn, o vmBalanceOpts) bool {
 	touched := false
 	probe := &vmSt{}
 	g := &vmGather{info: fn.info, st: probe}
 	ast.Inspect(fn.fd.Body, func(n ast.Node) bool {
 		switch x := n.(type) {
 		case *ast.CallExpr:
-			g.add(vmEv{K: evCall, Fn: CalleeOf(fn.info, x), Call: x})
+			f := CalleeOf(fn.info, x)
+			if f != nil && o.wrappers != nil && o.wrappers.isWrapper(f.Origin()) {
+				touched = true
+			}
+			g.add(vmEv{K: evCall, Fn: f, Call: x})
 		case *ast.IncDecStmt:
 			g.add(vmEv{K: evIncDec, X: x.X, Tok: x.Tok})
+		case *ast.AssignStmt:
+			for _, l := range x.Lhs {
+				g.add(vmEv{K: evAssign, Lhs: l, Tok: x.Tok})
+			}
 		}
 		return true
 	})
@@ -58,11 +77,158 @@ func vmBalanceFn(c *Ctx, fn *vmFn, o vmBalanceOpts) []Obligation {
 			}
 		}
 	}
-	if !touched {
+	return touched
+}
+
+// vmStaticCallers: functions of the set that are called statically by another function of the set.
+func vmStaticCallers(fns []*vmFn) map[*types.Func]bool {
+	out := map[*types.Func]bool{}
+	for _, fn := range fns {
+		self, _ := fn.info.Defs[fn.fd.Name].(*types.Func)
+		ast.Inspect(fn.fd.Body, func(n ast.Node) bool {
+			if call, ok := n.(*ast.CallExpr); ok {
+				if g := CalleeOf(fn.info, call); g != nil && g.Origin() != self {
+					out[g.Origin()] = true
+				}
+			}
+			return true
+		})
+	}
+	return out
+}
+
+// vmWrapperFinder decides lazily (bottom-up over the static call graph of the
+// package) whether a function is a wrapper: a small helper (at most 64 paths)
+// every non-panicking exit of which leaves the counters at the same non-zero
+// vector — its callees that are wrappers themselves spliced in —, no loop
+// iteration of which changes them, and which some other function of the
+// package calls. A function with mixed effects is not a wrapper: it is a unit
+// and is reported itself.
+type vmWrapperFinder struct {
+	c      *Ctx
+	o      vmBalanceOpts
+	byObj  map[*types.Func]*vmFn
+	called map[*types.Func]bool
+	skip   func(fn *vmFn, obj *types.Func) bool
+	memo   map[*types.Func]bool
+	busy   map[*types.Func]bool
+	rel    *vmCalleeCloser
+}
+
+func vmNewWrapperFinder(c *Ctx, fns []*vmFn, o vmBalanceOpts, skip func(fn *vmFn, obj *types.Func) bool) *vmWrapperFinder {
+	w := &vmWrapperFinder{c: c, byObj: map[*types.Func]*vmFn{}, called: vmStaticCallers(fns), skip: skip, memo: map[*types.Func]bool{}, busy: map[*types.Func]bool{}}
+	for _, fn := range fns {
+		if obj, ok := fn.info.Defs[fn.fd.Name].(*types.Func); ok {
+			w.byObj[obj] = fn
+		}
+	}
+	o.wrappers = w
+	w.o = o
+	// transitive relevance: only functions that can reach a counted event are ever walked
+	w.rel = vmNewCloser(c, func(fn *vmFn, n ast.Node) bool {
+		var e vmEv
+		switch x := n.(type) {
+		case *ast.CallExpr:
+			e = vmEv{K: evCall, Fn: CalleeOf(fn.info, x), Call: x}
+		case *ast.IncDecStmt:
+			e = vmEv{K: evIncDec, X: x.X, Tok: x.Tok}
+		case *ast.AssignStmt:
+			for _, l := range x.Lhs {
+				for _, k := range o.counters {
+					if k.delta(fn, vmEv{K: evAssign, Lhs: l, Tok: x.Tok}) != 0 {
+						return true
+					}
+				}
+			}
+			return false
+		default:
+			return false
+		}
+		for _, k := range o.counters {
+			if k.delta(fn, e) != 0 {
+				return true
+			}
+		}
+		return false
+	})
+	return w
+}
+
+func (w *vmWrapperFinder) isWrapper(obj *types.Func) bool {
+	if obj == nil {
+		return false
+	}
+	obj = obj.Origin()
+	if v, ok := w.memo[obj]; ok {
+		return v
+	}
+	fn := w.byObj[obj]
+	if fn == nil || w.busy[obj] || !w.called[obj] || (w.skip != nil && w.skip(fn, obj)) || !w.rel.relevant(fn) {
+		return false
+	}
+	if w.o.initialiser != nil {
+		if is, _ := w.o.initialiser(fn); is {
+			w.memo[obj] = false
+			return false
+		}
+	}
+	w.busy[obj] = true
+	defer delete(w.busy, obj)
+	res := vmWalk(vmWalkOpts{fn: fn, correlate: true, inline: w.o.inline(), maxPaths: 64})
+	is := false
+	if !res.overflow && len(res.unsupported) == 0 {
+		vecs := map[string]bool{}
+		nonzero, clean := false, true
+		for i := range res.paths {
+			p := &res.paths[i]
+			if p.o.kind == cPanic {
+				continue
+			}
+			var parts []string
+			for _, k := range w.o.counters {
+				v := 0
+				for _, e := range p.ev {
+					if d := k.delta(fn, e); d != 0 {
+						if e.DeferCond {
+							clean = false
+						}
+						v += d
+					}
+				}
+				if v != 0 {
+					nonzero = true
+				}
+				parts = append(parts, fmt.Sprint(v))
+			}
+			vecs[strings.Join(parts, ",")] = true
+		}
+		for i := range res.iters {
+			p := &res.iters[i]
+			last := p.ev[len(p.ev)-1]
+			for _, k := range w.o.counters {
+				for j := last.From; j < len(p.ev); j++ {
+					if k.delta(fn, p.ev[j]) != 0 {
+						clean = false
+					}
+				}
+			}
+		}
+		is = len(vecs) == 1 && nonzero && clean
+	}
+	w.memo[obj] = is
+	return is
+}
+
+// vmBalanceFn decides, for one function, that every counter returns to its
+// entry value on every non-panicking exit and at every loop iteration
+// boundary. One obligation per (unit, counter) that the unit touches.
+func vmBalanceFn(c *Ctx, fn *vmFn, o vmBalanceOpts) []Obligation {
+	// cheap pre-filter: does the function contain any counted event?
+	if !vmTouches(fn, o) {
 		return nil
 	}
 	var obs []Obligation
-	res := vmWalk(vmWalkOpts{fn: fn, correlate: true})
+	res := vmWalk(vmWalkOpts{fn: fn, correlate: true, inline: o.inline()})
 	if res.overflow {
 		return []Obligation{{Key: fn.name + "|<paths>", Pos: c.Pos(fn.fd.Pos()), Status: Undecided, Detail: "path cap exceeded"}}
 	}
@@ -204,25 +370,46 @@ func vmCallCounter(name string, roles *vmStackRoles) vmCounter {
 
 // --------------------------------------------------------- R-pairing-scopes
 
-func ruleVMPairScopes(c *Ctx) []Obligation {
+var vmCompBalanceCache = map[*Ctx]*vmBalanceOpts{}
+
+func vmCompIsRole(r *vmCompilerRoles) func(fn *vmFn, obj *types.Func) bool {
+	return func(fn *vmFn, obj *types.Func) bool {
+		for _, roles := range []*vmStackRoles{r.scopes, r.loops} {
+			if _, is := roles.push[obj]; is {
+				return true
+			}
+			if _, is := roles.pop[obj]; is {
+				return true
+			}
+		}
+		return false
+	}
+}
+
+// vmCompBalance: the counters of R-pairing-scopes and the wrapper helpers
+// (enter-scope / enter-loop functions) found for them.
+func vmCompBalance(c *Ctx) vmBalanceOpts {
+	if o := vmCompBalanceCache[c]; o != nil {
+		return *o
+	}
 	r := vmCompRoles(c)
 	o := vmBalanceOpts{counters: []vmCounter{
 		vmCallCounter("scope stack ("+r.scopes.names()+")", r.scopes),
 		vmCallCounter("loop stack ("+r.loops.names()+")", r.loops),
 	}}
+	o.wrappers = vmNewWrapperFinder(c, r.fns, o, vmCompIsRole(r))
+	vmCompBalanceCache[c] = &o
+	return o
+}
+
+func ruleVMPairScopes(c *Ctx) []Obligation {
+	r := vmCompRoles(c)
+	o := vmCompBalance(c)
+	isRole := vmCompIsRole(r)
 	var obs []Obligation
 	for _, fn := range r.fns {
 		obj, _ := fn.info.Defs[fn.fd.Name].(*types.Func)
-		if _, isRole := r.scopes.push[obj]; isRole {
-			continue
-		}
-		if _, isRole := r.scopes.pop[obj]; isRole {
-			continue
-		}
-		if _, isRole := r.loops.push[obj]; isRole {
-			continue
-		}
-		if _, isRole := r.loops.pop[obj]; isRole {
+		if isRole(fn, obj) || o.wrappers.isWrapper(obj) {
 			continue
 		}
 		obs = append(obs, vmBalanceFn(c, fn, o)...)
@@ -319,7 +506,14 @@ func vmInterp(c *Ctx) *vmInterpRoles {
 	return r
 }
 
-func ruleVMPairInterp(c *Ctx) []Obligation {
+var vmInterpBalanceCache = map[*Ctx]*vmBalanceOpts{}
+
+// vmInterpBalance: the counters of R-pairing-interp and the wrapper helpers
+// (enter/leave-frame functions) found for them.
+func vmInterpBalance(c *Ctx) vmBalanceOpts {
+	if o := vmInterpBalanceCache[c]; o != nil {
+		return *o
+	}
 	r := vmInterp(c)
 	o := vmBalanceOpts{
 		counters: []vmCounter{
@@ -356,13 +550,29 @@ func ruleVMPairInterp(c *Ctx) []Obligation {
 			return found, "the function constructs a fresh " + r.modStruct.Name() + " (a new, empty scope stack)"
 		},
 	}
+	o.wrappers = vmNewWrapperFinder(c, r.fns, o, vmInterpIsRole(r))
+	vmInterpBalanceCache[c] = &o
+	return o
+}
+
+func vmInterpIsRole(r *vmInterpRoles) func(fn *vmFn, obj *types.Func) bool {
+	return func(fn *vmFn, obj *types.Func) bool {
+		if _, is := r.scopes.push[obj]; is {
+			return true
+		}
+		_, is := r.scopes.pop[obj]
+		return is
+	}
+}
+
+func ruleVMPairInterp(c *Ctx) []Obligation {
+	r := vmInterp(c)
+	o := vmInterpBalance(c)
+	isRole := vmInterpIsRole(r)
 	var obs []Obligation
 	for _, fn := range r.fns {
 		obj, _ := fn.info.Defs[fn.fd.Name].(*types.Func)
-		if _, isRole := r.scopes.push[obj]; isRole {
-			continue
-		}
-		if _, isRole := r.scopes.pop[obj]; isRole {
+		if isRole(fn, obj) || o.wrappers.isWrapper(obj) {
 			continue
 		}
 		obs = append(obs, vmBalanceFn(c, fn, o)...)
@@ -485,8 +695,30 @@ func ruleVMPairLocks(c *Ctx) []Obligation {
 			})
 		}
 	}
+	// lock wrappers (`func (vm *VM) lockCores() { vm.Cores.Lock.Lock() }`): helpers every exit of which
+	// leaves a mutex acquired or released. They are spliced into their callers.
+	lockDelta := func(ops ...string) func(fn *vmFn, e vmEv) int {
+		return func(fn *vmFn, e vmEv) int {
+			if m, ok := vmMutexOpOf(fn.info, e); ok {
+				switch m.op {
+				case ops[0]:
+					return 1
+				case ops[1]:
+					return -1
+				}
+			}
+			return 0
+		}
+	}
+	wr := vmNewWrapperFinder(c, fns, vmBalanceOpts{counters: []vmCounter{
+		{name: "write lock", delta: lockDelta("Lock", "Unlock")},
+		{name: "read lock", delta: lockDelta("RLock", "RUnlock")},
+	}}, nil)
 	var obs []Obligation
 	for _, fn := range fns {
+		if obj, _ := fn.info.Defs[fn.fd.Name].(*types.Func); wr.isWrapper(obj) {
+			continue
+		}
 		// does the function (outside nested literals) touch a mutex or a protected field?
 		relevant := false
 		var litLocks []token.Pos
@@ -494,6 +726,9 @@ func ruleVMPairLocks(c *Ctx) []Obligation {
 			switch x := n.(type) {
 			case *ast.CallExpr:
 				if _, ok := vmMutexOpOf(fn.info, vmEv{K: evCall, Fn: CalleeOf(fn.info, x), Call: x}); ok {
+					relevant = true
+				}
+				if wr.isWrapper(CalleeOf(fn.info, x)) {
 					relevant = true
 				}
 			case *ast.AssignStmt:
@@ -522,17 +757,17 @@ func ruleVMPairLocks(c *Ctx) []Obligation {
 		if !relevant {
 			continue
 		}
-		obs = append(obs, vmLockFn(c, fn, protectedBy, acquires)...)
+		obs = append(obs, vmLockFn(c, fn, protectedBy, acquires, wr)...)
 	}
 	return obs
 }
 
 type vmLockState struct{ r, w int }
 
-func vmLockFn(c *Ctx, fn *vmFn, protectedBy map[*types.Var]*types.Var, acquires map[*types.Func]map[string]string) []Obligation {
+func vmLockFn(c *Ctx, fn *vmFn, protectedBy map[*types.Var]*types.Var, acquires map[*types.Func]map[string]string, wr *vmWrapperFinder) []Obligation {
 	info := fn.info
 	var obs []Obligation
-	res := vmWalk(vmWalkOpts{fn: fn, correlate: true})
+	res := vmWalk(vmWalkOpts{fn: fn, correlate: true, inline: wr.o.inline()})
 	if res.overflow {
 		return []Obligation{{Key: fn.name + "|<paths>", Pos: c.Pos(fn.fd.Pos()), Status: Undecided, Detail: "path cap exceeded"}}
 	}
@@ -768,14 +1003,23 @@ func vmLockFn(c *Ctx, fn *vmFn, protectedBy map[*types.Var]*types.Var, acquires 
 				return false
 			case *ast.DeferStmt:
 				var ops []vmMutexOp
-				ast.Inspect(x.Call, func(k ast.Node) bool {
-					if call, ok := k.(*ast.CallExpr); ok {
-						if mo, ok := vmMutexOpOf(info, vmEv{K: evCall, Fn: CalleeOf(info, call), Call: call}); ok && (mo.op == "Unlock" || mo.op == "RUnlock") {
-							ops = append(ops, mo)
+				var scan func(n ast.Node, depth int)
+				scan = func(n ast.Node, depth int) {
+					ast.Inspect(n, func(k ast.Node) bool {
+						if call, ok := k.(*ast.CallExpr); ok {
+							f := CalleeOf(info, call)
+							if mo, ok := vmMutexOpOf(info, vmEv{K: evCall, Fn: f, Call: call}); ok && (mo.op == "Unlock" || mo.op == "RUnlock") {
+								ops = append(ops, mo)
+							}
+							// a deferred unlock helper
+							if depth < 3 && wr.isWrapper(f) {
+								scan(wr.byObj[f.Origin()].fd.Body, depth+1)
+							}
 						}
-					}
-					return true
-				})
+						return true
+					})
+				}
+				scan(x.Call, 0)
 				for _, mo := range ops {
 					nDefer[mo.name]++
 					key := fmt.Sprintf("%s|%s|deferred %s #%d is not inside a loop", fn.name, mo.name, mo.op, nDefer[mo.name])
